@@ -21,10 +21,12 @@ theorem kw_rest_lt {env : Env} {prev : Option Char} {w s r : Str} (hw : w ≠ []
 theorem numberMatch_rest {env : Env} {t r1 : Str} {m : Match} (h : numberMatch env t r1 = .ok (some m)) : m.rest = r1 := by
   unfold numberMatch at h
   split at h
-  · simp at h; subst h; rfl
   · split at h
-    · simp at h; subst h; rfl
-    · simp at h
+    · cases h
+    · simp only [Except.ok.injEq, Option.some.injEq] at h; subst h; rfl
+  · split at h
+    · simp only [Except.ok.injEq, Option.some.injEq] at h; subst h; rfl
+    · cases h
 
 theorem matchSentinel_rest_lt {env : Env} {s : Str} {m : Match} (h : matchSentinel env s = some m) : m.rest.length < s.length := by
   unfold matchSentinel at h
